@@ -20,6 +20,8 @@ def stmt_sql(it):
         return "select count(*) as c from t"
     if k == "fail":
         return "select * from no_such_table"
+    if k == "call":
+        return "call foo()"
     if k == "cmton":
         return "comment on table t is 'c1'"
     if k == "cmtset":
@@ -44,7 +46,7 @@ def render(items, rng):
         else:
             out.append(rng.choice(["", "  ", "\n"]) + stmt_sql(it) + rng.choice([";", " ;", ";\n", ";  "]))
     text = "".join(out)
-    if items and items[-1]["k"] in ("ins", "sel", "fail", "cmton", "cmtset") and rng.random() < 0.3:
+    if items and items[-1]["k"] in ("ins", "sel", "fail", "cmton", "cmtset", "call") and rng.random() < 0.3:
         text = text.rstrip().rstrip(";")  # the last statement may come without its semicolon
     return text
 
@@ -130,11 +132,11 @@ class C16(Prop):
                 def result(it, cur):
                     rows = cur.fetchall()
                     v = list(rows[0].values())[0] if op["cc"] == "dict" else rows[0][0]
-                    if it["k"] in ("cmton", "cmtset"):
+                    if it["k"] in ("cmton", "cmtset", "call"):
                         return -1 if len(rows) == 1 and isinstance(v, str) else -8
                     return int(v)
 
-                stmts = [it for it in op["items"] if it["k"] in ("ins", "sel", "fail", "cmton", "cmtset")]
+                stmts = [it for it in op["items"] if it["k"] in ("ins", "sel", "fail", "cmton", "cmtset", "call")]
                 kw = {"remove_comments": True} if op.get("rc") else {}
                 try:
                     if op["via"] == "string":
